@@ -309,7 +309,7 @@ pub fn build_pop_state(seed: u64, bad16: u64) -> (Built, Option<PopStateKind>) {
         (true, false) => PopStateKind::LeafR1,
         (true, true) => PopStateKind::LeafR2,
     });
-    let mut reject = |w: &str, expect: &mut Expect, why: &mut String| {
+    let reject = |w: &str, expect: &mut Expect, why: &mut String| {
         *expect = Expect::Reject;
         *why = w.into();
     };
